@@ -74,6 +74,32 @@ impl SubCheck for NewSub {
                 chk!(o, e.kind() == ErrorKind::Range, "C09/new/error-kind", "Range", err_str(e));
             }
         }
+        // the part constructors decide validity by the same rule (the other part taken as zero)
+        {
+            let mut tf = [0.0f64; 10];
+            tf[4..].copy_from_slice(&c.f[4..]);
+            let wt = valid_f64s(&tf);
+            let r = temporal_rs::TimeDuration::new(ff(c.f[4]), ff(c.f[5]), ff(c.f[6]), ff(c.f[7]), ff(c.f[8]), ff(c.f[9]));
+            match r {
+                Ok(t) => {
+                    chk!(o, wt, "C09/TimeDuration::new/accepted-invalid", "RangeError", tf);
+                    let g = [t.hours.as_inner(), t.minutes.as_inner(), t.seconds.as_inner(), t.milliseconds.as_inner(), t.microseconds.as_inner(), t.nanoseconds.as_inner()];
+                    chk!(o, g.iter().zip(c.f[4..].iter()).all(|(a, b)| a == b), "C09/TimeDuration::new/fields-altered", tf, g);
+                }
+                Err(e) => chk!(o, !wt && e.kind() == ErrorKind::Range, "C09/TimeDuration::new/error", if wt { "Ok" } else { "RangeError" }, err_str(&e)),
+            }
+            let mut df = [0.0f64; 10];
+            df[..4].copy_from_slice(&c.f[..4]);
+            let wd = valid_f64s(&df);
+            match temporal_rs::DateDuration::new(ff(c.f[0]), ff(c.f[1]), ff(c.f[2]), ff(c.f[3])) {
+                Ok(d) => {
+                    chk!(o, wd, "C09/DateDuration::new/accepted-invalid", "RangeError", df);
+                    let g = [d.years.as_inner(), d.months.as_inner(), d.weeks.as_inner(), d.days.as_inner()];
+                    chk!(o, g.iter().zip(c.f[..4].iter()).all(|(a, b)| a == b), "C09/DateDuration::new/fields-altered", df, g);
+                }
+                Err(e) => chk!(o, !wd && e.kind() == ErrorKind::Range, "C09/DateDuration::new/error", if wd { "Ok" } else { "RangeError" }, err_str(&e)),
+            }
+        }
         // partial: absent fields are zero; all absent -> TypeError
         let mut p = PartialDuration::default();
         let mut g = [0.0f64; 10];
@@ -427,7 +453,8 @@ pub fn round_case() -> BoxedStrategy<RoundCase> {
             let s = smallest.unwrap_or(U::Nanosecond);
             let incs: Vec<u32> = match s.max_increment() {
                 Some(m) => gen::divisors_below(m).into_iter().map(|x| x as u32).collect(),
-                None => vec![1, 2, 3, 5, 7, 10, 30, 100],
+                // day has no maximum: small increments, and increments whose length in ns is next to 2^63 / 2^64
+                None => vec![1, 2, 3, 5, 7, 10, 30, 100, 106_751, 106_752, 213_503, 213_504, 250_000, 1_000_000, 999_999_999, 1_000_000_000],
             };
             let inc = incs[inc_idx * incs.len() / 64];
             // largest: absent / auto / explicit unit not smaller than smallest
